@@ -105,14 +105,16 @@ Proof. vm_compute. reflexivity. Qed.
 Print Assumptions C14_churn_bounded_partial.
 
 (* hypotheses are satisfiable / the model really runs: a leak-free program keeps ref_count = in-degree ... *)
+Definition ex_prog : list instr :=
+  [IEnter 2; IPushStr 0; IStoreLocal 0; ILoadLocal 0; IPushStr 0; IArrLiteral 2; IStoreLocal 1;
+   ILoadLocal 1; IPushNon; IArrGet 1%Z; IPop; IPushNon; IRet].
 Example C14_ex_exact_run :
-  exists m, run [IEnter 2; IPushStr 0; IStoreLocal 0; ILoadLocal 0; IPushStr 0; IArrLiteral 2; IStoreLocal 1;
-                 ILoadLocal 1; IPushNon; IArrGet 1%Z; IPop; IPushNon; IRet] init_state = Some (Ok m)
-            /\ ExactInv m /\ live_count (hp m) = 0.
+  exists m, run ex_prog init_state = Some (Ok m) /\ ExactInv m /\ live_count (hp m) = 0.
 Proof.
-  eexists. split. vm_compute. reflexivity. split.
-  - eapply run_exact. apply init_exact. vm_compute. reflexivity. vm_compute. reflexivity.
-  - vm_compute. reflexivity.
+  destruct (run ex_prog init_state) as [[m| | |]|] eqn:R; try (vm_compute in R; discriminate).
+  exists m. split. reflexivity. split.
+  - apply (run_exact ex_prog init_state m init_exact R). vm_compute. reflexivity.
+  - vm_compute in R. inversion R. reflexivity.
 Qed.
 (* ... and releasing an object that is already freed is detected by the model (so no_use_after_free is not vacuous) *)
 Example C14_ex_uaf_detected :
